@@ -40,9 +40,11 @@ byte. -/
 theorem afterPayload_eq (cfg : Reader.Cfg) (codec : Codec) (st : Reader.State) (h : Frame.Hdr) (p rest buf : Bytes)
     (opcode : UInt8) (hop : opcode.toNat = Frame.getOpcode h.b0) (hst : st.cont.opcode < 256) :
     interp cfg codec st rest
-      (Trans.Conn_readMessage_afterPayload Decision.ret Decision.emit st.cont.initialized st.cont.compressed
-        (UInt8.ofNat st.cont.opcode) st.cont.buffer cfg.readMax opcode (Frame.getFIN h.b0) p buf
-        (cfg.pdEnabled && Frame.getRSV1 h.b0))
+      (Trans.Conn_readMessage_afterPayload Decision.ret Decision.emit
+        (c_continuationFrame_initialized := st.cont.initialized) (c_continuationFrame_compressed := st.cont.compressed)
+        (c_continuationFrame_opcode := UInt8.ofNat st.cont.opcode) (c_continuationFrame_buffer := st.cont.buffer)
+        (c_config_ReadMaxPayloadSize := cfg.readMax) (opcode := opcode) (fin := Frame.getFIN h.b0) (p := p) (buf := buf)
+        (compressed := cfg.pdEnabled && Frame.getRSV1 h.b0))
       = Reader.afterPayload cfg codec st h p rest := by
   obtain ⟨⟨ini, cmp, op, cb⟩, dps⟩ := st
   simp only at hst
